@@ -807,6 +807,9 @@ class ClientSession:
                         )
                         if r_url is None:
                             # see github.com/aio-libs/aiohttp/issues/2022
+                            # Nothing to follow: this response is the final one,
+                            # not a predecessor of itself.
+                            history.pop()
                             break
                         else:
                             # reading from correct redirection
